@@ -100,6 +100,238 @@ theorem digits_alphabet (w n : Nat) : ∀ c ∈ digitsW digits 10 w n, c ∈ dig
   have : ∀ k < 10, chr digits k ∈ digits := by decide
   exact this k hk
 
+/-! ### `reverse_forward` on the integer level (UTM zones): `Reverse ∘ Forward` for all zones, bands, precisions -/
+
+/-- `Reverse` on a well-formed UTM string, given what its pieces look up to -/
+theorem decode_utm (s : List Nat) (cp : Bool) (c1 c2 d1 d2 kb kc kr prec ex ny : Nat) (R : Int)
+    (hinv : (decide (s.length ≥ 3) && (s.take 3).map upper == [73, 78, 86]) = false)
+    (hds : (s.takeWhile (fun c => (lookup digits c).isSome)).take 3 = [c1, c2])
+    (hd1 : lookup digits c1 = some d1) (hd2 : lookup digits c2 = some d2)
+    (hz : 1 ≤ 10 * d1 + d2 ∧ 10 * d1 + d2 ≤ 60)
+    (hlen : s.length = 5 + 2 * prec) (hprec : prec ≤ 11)
+    (hband : lookup latband (s.getD 2 0) = some kb)
+    (hcol : lookup (utmcols.getD (Int.tmod ((10 * d1 + d2 : Nat) - 1 : Int) 3).toNat []) (s.getD 3 0) = some kc)
+    (hrow : lookup utmrow (s.getD 4 0) = some kr)
+    (hR : utmRow ((kb:Int) - 10) kc
+        (if ((10 * d1 + d2 : Nat) - 1 : Int) % 2 = 1 then Int.tmod ((kr:Int) + period - mgrs_utmevenrowshift) period else kr) = R)
+    (hR100 : R ≠ maxS)
+    (heast : readNum digits 10 ((s.drop 5).take prec) = some ex)
+    (hnorth : readNum digits 10 ((s.drop (5 + prec)).take prec) = some ny) :
+    decodeInt s cp = .ok (.cell
+      ⟨(10 * d1 + d2 : Nat), decide ((kb:Int) ≥ 10),
+       (if cp then 2 * (((kc:Int) + 1) * 10 ^ prec + ex) + 1 else ((kc:Int) + 1) * 10 ^ prec + ex),
+       (if cp then 2 * ((if (kb:Int) ≥ 10 then R else R + 100) * 10 ^ prec + ny) + 1
+          else (if (kb:Int) ≥ 10 then R else R + 100) * 10 ^ prec + ny),
+       (if cp then 10 ^ prec * 2 else 10 ^ prec), prec⟩) := by
+  have hzone : List.foldl (fun (a : Int) c => 10 * a + ((lookup digits c).getD 0 : Nat)) 0 [c1, c2] = ((10 * d1 + d2 : Nat) : Int) := by
+    simp [hd1, hd2]
+  have z1 : ¬ (((10 * d1 + d2 : Nat) : Int) = zUPS) := by
+    show ¬ (((10 * d1 + d2 : Nat) : Int) = 0); omega
+  have z2 : ((10 * d1 + d2 : Nat) : Int) ≥ zMINUTMZONE ∧ ((10 * d1 + d2 : Nat) : Int) ≤ zMAXUTMZONE := by
+    show ((10 * d1 + d2 : Nat) : Int) ≥ 1 ∧ ((10 * d1 + d2 : Nat) : Int) ≤ 60; omega
+  have l1 : ¬ (5 + 2 * prec < 2 + 1) := by omega
+  have l2 : ¬ (2 + 1 = 5 + 2 * prec) := by omega
+  have l3 : ¬ (5 + 2 * prec < 2 + 1 + 2) := by omega
+  have l4 : (5 + 2 * prec - (2 + 1 + 2)) / 2 = prec := by omega
+  have l5 : ¬ ((5 + 2 * prec - (2 + 1 + 2)) % 2 = 1) := by omega
+  have l6 : ¬ ((prec : Int) > mgrs_maxprec) := by show ¬ ((prec:Int) > 11); omega
+  have z1' : ¬ (10 * (d1:Int) + d2 = zUPS) := by push_cast at z1; exact z1
+  have z2' : ¬ (10 * (d1:Int) + d2 < zMINUTMZONE ∨ zMAXUTMZONE < 10 * (d1:Int) + d2) := by push_cast at z2; omega
+  push_cast at hcol hR
+  simp only [List.getD_eq_getElem?_getD] at hband hcol hrow
+  have hinv' : ¬ (3 ≤ 5 + 2 * prec ∧ List.take 3 (List.map upper s) = [73, 78, 86]) := by
+    intro h
+    rw [hlen] at hinv
+    simp [List.map_take, h.2] at hinv
+    omega
+  unfold decodeInt
+  simp only [hds, hlen, hzone, List.length_cons, List.length_nil, Nat.zero_add]
+  simp [z1', z2', hinv', l1, l2, l3, l6, hband, hcol, hrow, hR, hR100, heast, hnorth]
+  cases cp <;> rfl
+
+/-- the UTM string written by `MGRS::Forward` (integer level) -/
+def utmString (zone : Int) (ix iy iband : Int) (prec : Nat) : List Char :=
+  let m : Int := 100000000000
+  let xh := ix / m
+  let yh := iy / m
+  let d : Int := 10 ^ (11 - prec)
+  [chr digits (zone / 10).toNat, chr digits (zone % 10).toNat,
+   chr latband (10 + iband).toNat,
+   chr (utmcols.getD ((zone - 1) % 3).toNat []) (xh - 1).toNat,
+   chr utmrow ((yh + (if (zone - 1) % 2 = 1 then 5 else 0)) % 20).toNat] ++
+  digitsW digits 10 prec ((ix - m * xh) / d).toNat ++ digitsW digits 10 prec ((iy - m * yh) / d).toNat
+
+theorem encodeInt_utm (zone : Int) (hz : 1 ≤ zone ∧ zone ≤ 60) (northp : Bool) (ix iy : Int) (hix : 0 ≤ ix) (hiy : 0 ≤ iy)
+    (iband : Int) (prec : Nat) (hprec : prec ≤ 11)
+    (hrow : utmRow iband (ix / 100000000000 - 1) (iy / 100000000000 % 20) =
+      iy / 100000000000 - (if northp then 0 else 100)) :
+    encodeInt zone northp ix iy iband prec = .ok (utmString zone ix iy iband prec) := by
+  have hz0 : zone ≠ 0 := by omega
+  have e1 : Int.tdiv ix 100000000000 = ix / 100000000000 := Int.tdiv_eq_ediv_of_nonneg hix
+  have e2 : Int.tdiv iy 100000000000 = iy / 100000000000 := Int.tdiv_eq_ediv_of_nonneg hiy
+  have hmt : mgrs_mult * tile = 100000000000 := by decide
+  have hper : period = 20 := rfl
+  have yh0 : 0 ≤ iy / 100000000000 := Int.ediv_nonneg hiy (by omega)
+  have t1 : (zone - 1).tmod 3 = (zone - 1) % 3 := Int.tmod_eq_emod_of_nonneg (by omega)
+  have t2 : (iy / 100000000000).tmod 20 = iy / 100000000000 % 20 := Int.tmod_eq_emod_of_nonneg yh0
+  have t3 : ∀ sh : Int, 0 ≤ sh → (iy / 100000000000 + sh).tmod 20 = (iy / 100000000000 + sh) % 20 :=
+    fun sh h => Int.tmod_eq_emod_of_nonneg (by omega)
+  have t4 : zone.tdiv 10 = zone / 10 := Int.tdiv_eq_ediv_of_nonneg (by omega)
+  have t5 : zone.tmod 10 = zone % 10 := Int.tmod_eq_emod_of_nonneg (by omega)
+  have r0 : 0 ≤ ix - 100000000000 * (ix / 100000000000) := by omega
+  have r1 : 0 ≤ iy - 100000000000 * (iy / 100000000000) := by omega
+  have hmp : (mgrs_maxprec - (prec:Int)).toNat = 11 - prec := by show ((11:Int) - prec).toNat = _; omega
+  have t6 : ∀ d : Int, (ix - 100000000000 * (ix / 100000000000)).tdiv d = (ix - 100000000000 * (ix / 100000000000)) / d :=
+    fun d => Int.tdiv_eq_ediv_of_nonneg r0
+  have t7 : ∀ d : Int, (iy - 100000000000 * (iy / 100000000000)).tdiv d = (iy - 100000000000 * (iy / 100000000000)) / d :=
+    fun d => Int.tdiv_eq_ediv_of_nonneg r1
+  have t3' : (iy / 100000000000 + (if (zone - 1) % 2 = 1 then mgrs_utmevenrowshift else 0)).tmod 20
+      = (iy / 100000000000 + (if (zone - 1) % 2 = 1 then 5 else 0)) % 20 := by
+    by_cases h : (zone - 1) % 2 = 1
+    · simp only [h, if_true]; exact t3 5 (by omega)
+    · simp only [h, if_false]; exact t3 0 (by omega)
+  have hrow' : utmRow iband (ix / 100000000000 - mgrs_minutmcol) (iy / 100000000000 % 20) =
+      iy / 100000000000 - (if northp = true then mgrs_minutmNrow else mgrs_maxutmSrow) := hrow
+  unfold encodeInt
+  simp only [hz0, ne_eq, not_false_eq_true, if_true, hmt, e1, e2, hper, t1, t2, t3', t4, t5, t6, t7, hrow', not_true_eq_false,
+    if_false, mgrs_base, hmp, Int.toNat_natCast, pure_bind]
+  show Except.ok _ = Except.ok _
+  congr 1
+  rw [List.take_of_length_le]
+  · unfold utmString
+    simp only [mgrs_minutmcol]
+    by_cases hp0 : prec = 0
+    · subst hp0; simp [digitsW]
+    · have : (prec : Int) > 0 := by omega
+      simp only [this, if_true, List.cons_append, List.nil_append]
+  · by_cases hp0 : prec = 0
+    · subst hp0; simp
+    · have : (prec : Int) > 0 := by omega
+      simp only [this, if_true, List.length_append, List.length_cons, List.length_nil, digitsW_length]
+      omega
+
+theorem digit_not_I : ∀ k < 10, upper (chr digits k).toNat ≠ 73 := by decide
+theorem band_not_digit : ∀ k < 20, lookup digits (chr latband k).toNat = none := by decide
+theorem digit_is_digit : ∀ k < 10, (lookup digits (chr digits k).toNat).isSome = true := by decide
+
+
+theorem zone_facts (zone : Int) (hz : 1 ≤ zone ∧ zone ≤ 60) :
+    (zone / 10).toNat < 10 ∧ (zone % 10).toNat < 10 ∧ ((zone - 1) % 3).toNat < 3 ∧
+    (((10 * (zone / 10).toNat + (zone % 10).toNat : Nat)) : Int) = zone ∧
+    (1 ≤ 10 * (zone / 10).toNat + (zone % 10).toNat ∧ 10 * (zone / 10).toNat + (zone % 10).toNat ≤ 60) ∧
+    0 ≤ zone - 1 := by omega
+
+theorem band_facts (iband : Int) (hib : -10 ≤ iband ∧ iband < 10) :
+    (10 + iband).toNat < 20 ∧ (((10 + iband).toNat : Nat) : Int) - 10 = iband ∧
+    (((((10 + iband).toNat : Nat) : Int) ≥ 10) ↔ (iband ≥ 0)) := by omega
+
+theorem col_facts (xh : Int) (hxh : 1 ≤ xh ∧ xh ≤ 8) :
+    (xh - 1).toNat < 8 ∧ (((xh - 1).toNat : Nat) : Int) = xh - 1 := by omega
+
+theorem row_facts (yh zone : Int) (_h0 : 0 ≤ yh) :
+    ((yh + (if (zone - 1) % 2 = 1 then 5 else 0)) % 20).toNat < 20 ∧
+    (if (zone - 1) % 2 = 1
+      then Int.tmod (((((yh + (if (zone - 1) % 2 = 1 then 5 else 0)) % 20).toNat : Nat) : Int) + 20 - 5) 20
+      else ((((yh + (if (zone - 1) % 2 = 1 then 5 else 0)) % 20).toNat : Nat) : Int)) = yh % 20 := by
+  by_cases h : (zone - 1) % 2 = 1
+  · simp only [h, if_true]
+    have : ((((yh + 5) % 20).toNat : Nat) : Int) = (yh + 5) % 20 := by omega
+    rw [this, Int.tmod_eq_emod_of_nonneg (by omega)]
+    omega
+  · simp only [h, if_false]
+    omega
+
+/-- **`reverse_forward` on the integer level, UTM zones** (all zones, bands, precisions, `centerp`).
+If the latitude band is consistent with the northing row (`hrow`, the test `Forward` itself makes), `Forward` writes
+`utmString` and `Reverse` of it returns the zone, the hemisphere of the band, the precision, and tile + digits of the
+same 100 km square: easting `⌊ix / 10^(11−prec)⌋`, northing `(row)·10^prec + digits` where `row` is the northing tile
+re-expressed in the band's hemisphere (folding by 100 tiles = 10 000 km). -/
+theorem reverse_forward_utm (zone : Int) (hz : 1 ≤ zone ∧ zone ≤ 60) (northp : Bool) (ix iy : Int) (hix : 0 ≤ ix) (hiy : 0 ≤ iy)
+    (iband : Int) (hib : -10 ≤ iband ∧ iband < 10) (prec : Nat) (hprec : prec ≤ 11)
+    (hxh : 1 ≤ ix / 100000000000 ∧ ix / 100000000000 ≤ 8)
+    (hrow : utmRow iband (ix / 100000000000 - 1) (iy / 100000000000 % 20) =
+      iy / 100000000000 - (if northp then 0 else 100))
+    (hR : iy / 100000000000 - (if northp then 0 else 100) ≠ 100) (cp : Bool) :
+    encodeInt zone northp ix iy iband prec = .ok (utmString zone ix iy iband prec) ∧
+    decodeInt (toBytes (utmString zone ix iy iband prec)) cp =
+      let d : Int := 10 ^ (11 - prec)
+      let R := iy / 100000000000 - (if northp then 0 else 100)
+      let x1 := (ix / 100000000000) * 10 ^ prec + (ix - 100000000000 * (ix / 100000000000)) / d
+      let y1 := (if iband ≥ 0 then R else R + 100) * 10 ^ prec + (iy - 100000000000 * (iy / 100000000000)) / d
+      .ok (.cell ⟨zone, decide (iband ≥ 0), if cp then 2 * x1 + 1 else x1, if cp then 2 * y1 + 1 else y1,
+        if cp then 10 ^ prec * 2 else 10 ^ prec, prec⟩) := by
+  refine ⟨encodeInt_utm zone hz northp ix iy hix hiy iband prec hprec hrow, ?_⟩
+  have yh0 : 0 ≤ iy / 100000000000 := Int.ediv_nonneg hiy (by omega)
+  have r0 : 0 ≤ ix - 100000000000 * (ix / 100000000000) ∧ ix - 100000000000 * (ix / 100000000000) < 100000000000 := by omega
+  have r1 : 0 ≤ iy - 100000000000 * (iy / 100000000000) ∧ iy - 100000000000 * (iy / 100000000000) < 100000000000 := by omega
+  have hdpos : (0:Int) < 10 ^ (11 - prec) := Int.pow_pos (by omega)
+  have hpw : (10:Int) ^ prec * 10 ^ (11 - prec) = 100000000000 := by
+    rw [← Int.pow_add, show prec + (11 - prec) = 11 by omega]; decide
+  have hdxlt : (ix - 100000000000 * (ix / 100000000000)) / 10 ^ (11 - prec) < 10 ^ prec :=
+    Int.ediv_lt_of_lt_mul hdpos (by rw [hpw]; exact r0.2)
+  have hdylt : (iy - 100000000000 * (iy / 100000000000)) / 10 ^ (11 - prec) < 10 ^ prec :=
+    Int.ediv_lt_of_lt_mul hdpos (by rw [hpw]; exact r1.2)
+  have hdx0 : 0 ≤ (ix - 100000000000 * (ix / 100000000000)) / 10 ^ (11 - prec) := Int.ediv_nonneg r0.1 (Int.le_of_lt hdpos)
+  have hdy0 : 0 ≤ (iy - 100000000000 * (iy / 100000000000)) / 10 ^ (11 - prec) := Int.ediv_nonneg r1.1 (Int.le_of_lt hdpos)
+  obtain ⟨dx, hdx⟩ : ∃ dx, dx = (ix - 100000000000 * (ix / 100000000000)) / 10 ^ (11 - prec) := ⟨_, rfl⟩
+  obtain ⟨dy, hdy⟩ : ∃ dy, dy = (iy - 100000000000 * (iy / 100000000000)) / 10 ^ (11 - prec) := ⟨_, rfl⟩
+  rw [← hdx] at hdxlt hdx0
+  rw [← hdy] at hdylt hdy0
+  have hdxN : dx.toNat < 10 ^ prec := by
+    have : ((dx.toNat : Nat) : Int) < ((10 ^ prec : Nat) : Int) := by
+      rw [Int.toNat_of_nonneg hdx0]; exact_mod_cast hdxlt
+    exact_mod_cast this
+  have hdyN : dy.toNat < 10 ^ prec := by
+    have : ((dy.toNat : Nat) : Int) < ((10 ^ prec : Nat) : Int) := by
+      rw [Int.toNat_of_nonneg hdy0]; exact_mod_cast hdylt
+    exact_mod_cast this
+  -- the byte string in cons form
+  have hS : toBytes (utmString zone ix iy iband prec) =
+      (chr digits (zone / 10).toNat).toNat :: (chr digits (zone % 10).toNat).toNat ::
+      (chr latband (10 + iband).toNat).toNat ::
+      (chr (utmcols.getD ((zone - 1) % 3).toNat []) (ix / 100000000000 - 1).toNat).toNat ::
+      (chr utmrow ((iy / 100000000000 + (if (zone - 1) % 2 = 1 then 5 else 0)) % 20).toNat).toNat ::
+      (toBytes (digitsW digits 10 prec dx.toNat) ++ toBytes (digitsW digits 10 prec dy.toNat)) := by
+    simp only [utmString, toBytes, List.map_append, List.map_cons, List.map_nil, List.cons_append, List.nil_append,
+      List.append_assoc, ← hdx, ← hdy]
+  have lx : (toBytes (digitsW digits 10 prec dx.toNat)).length = prec := by simp [toBytes, digitsW_length]
+  have ly : (toBytes (digitsW digits 10 prec dy.toNat)).length = prec := by simp [toBytes, digitsW_length]
+  obtain ⟨k1, k2, kcol, hzc, hzr, hz1⟩ := zone_facts zone hz
+  obtain ⟨kbd, a1, hkb⟩ := band_facts iband hib
+  obtain ⟨kc8, a2⟩ := col_facts (ix / 100000000000) hxh
+  obtain ⟨kr20, hunshift⟩ := row_facts (iy / 100000000000) zone yh0
+  rw [hS]
+  refine Eq.trans (decode_utm _ cp _ _ (zone / 10).toNat (zone % 10).toNat (10 + iband).toNat (ix / 100000000000 - 1).toNat
+    ((iy / 100000000000 + (if (zone - 1) % 2 = 1 then 5 else 0)) % 20).toNat prec dx.toNat dy.toNat
+    (iy / 100000000000 - (if northp then 0 else 100)) ?_ ?_ (digits_table_ok _ k1) (digits_table_ok _ k2) hzr
+    ?_ hprec ?_ ?_ ?_ ?_ ?_ ?_ ?_) ?_
+  · have := digit_not_I _ k1
+    simp [this]
+  · simp [digit_is_digit _ k1, digit_is_digit _ k2, band_not_digit _ kbd]
+  · simp only [List.length_cons, List.length_append, lx, ly]; omega
+  · exact latband_lookup _ kbd
+  · rw [hzc, Int.tmod_eq_emod_of_nonneg hz1]; exact utmcols_lookup _ kcol _ kc8
+  · exact utmrow_lookup _ kr20
+  · rw [hzc, a1, a2, ← hrow]
+    congr 1
+  · show _ ≠ (100:Int); exact hR
+  · simp only [List.drop_succ_cons, List.drop_zero]
+    rw [List.take_left' lx, readNum_digitsW digits 10 (by decide) digits_table_ok, Nat.mod_eq_of_lt hdxN]
+  · have : 5 + prec = prec + 5 := by omega
+    rw [this]
+    simp only [List.drop_succ_cons]
+    rw [List.drop_left' lx, List.take_of_length_le (by rw [ly]; exact Nat.le_refl _),
+      readNum_digitsW digits 10 (by decide) digits_table_ok, Nat.mod_eq_of_lt hdyN]
+  · have b1 : ((dx.toNat : Nat) : Int) = dx := Int.toNat_of_nonneg hdx0
+    have b2 : ((dy.toNat : Nat) : Int) = dy := Int.toNat_of_nonneg hdy0
+    simp only [hzc, a2, b1, b2, hkb, Int.sub_add_cancel, ← hdx, ← hdy]
+
+
+/-- non-vacuity of the hypotheses: zone 38, band S (`iband = 4`), 444 km E, 3684 km N -/
+example : utmRow 4 (444000000000 / 100000000000 - 1) (3684000000000 / 100000000000 % 20) =
+    3684000000000 / 100000000000 - (if true then 0 else 100) := by decide +kernel
+example : String.ofList (utmString 38 444000000000 3684000000000 4 2) = "38SMB4484" := by decide +kernel
+
 /-! ### range tables -/
 
 theorem mgrs_range_tables :
